@@ -24,7 +24,11 @@ RULE = ("seeded random parsers: 3-7 declarations (int/str/List[int]/Any argument
         "with links of its own in ~50%, otherwise with NO link_arguments call at all) and two subcommands built from one "
         "generated parser (plain or class-typed, 1-4 link calls); 4 inputs each that select a subcommand and feed it through "
         "its options, its own --cfg, the nested section of the top-level --cfg, or parse_object; parse, dump and re-parse all "
-        "go through the TOP parser.")
+        "go through the TOP parser. ~30% of the plain arguments are declared with a second option string (--<key>_alt or a "
+        "short -K) and are then given through it half of the time, sources and link targets alike; a whole class spec on argv "
+        "is handed over in its own config file 70% of the time (the parse keeps __path__). Every successful parse is also "
+        "saved with save() in its default multifile mode and EVERY file written is read back (nested files are put back in "
+        "place of the reference the main file holds).")
 TRUSTED = [
     "Coq 8.16.1 kernel + vm_compute",
     "tie/impl/c15_links.py: observation of the real parser (wraps ActionLink.apply_parsing_links in the harness "
@@ -43,6 +47,11 @@ ASSUMPTIONS = [
     "input of the model (normalisation of class values is C14's subject); for all other parsers the whole pipeline "
     "defaults -> env -> argv/--cfg/object -> links -> validation is modelled",
     "dump is observed with skip_none=False (skip_none=True dropping an explicit null is C01's finding)",
+    "save(multifile=True) is modelled as the same function as dump (strip_link_target_keys on the whole configuration): "
+    "which part of it goes to which file is C18's subject; here the main file with every nested file put back must equal "
+    "the model's dump, and a written file that the main file does not refer to is an observation error",
+    "an argument has at most two option strings; the model identifies an option by the dest and whether the first or "
+    "the second spelling was used",
     "values are finite trees without sharing: link sets WITH key overlaps never hand a group/class Namespace through by "
     "reference (identity/first/tup are replaced by gsum there), because the real parser then builds shared or cyclic "
     "Namespaces; a whole class argument is never a link target",
@@ -60,7 +69,7 @@ _PROBE = {}
 
 
 def _decl(key, kind, default=None, required=False):
-    return {"key": key, "kind": kind, "default": default, "required": required}
+    return {"key": key, "kind": kind, "default": default, "required": required, "alias": None}
 
 
 PROBES = {
@@ -167,12 +176,17 @@ def gen_parser(rng, family):
             decls.append({"key": k, "kind": ty, "default": None, "required": False})
         else:
             decls.append({"key": k, "kind": ty, "default": rand_val(rng, ty), "required": False})
+    # ~30% of the plain arguments are declared with a second option string: --<key>_alt, or -K for one-letter keys
+    for d in decls:
+        d["alias"] = None
+        if rng.random() < 0.3:
+            d["alias"] = "short" if len(d["key"]) == 1 and rng.random() < 0.5 else "long"
     if family == "B":
         for k in rng.sample(["c", "d"], rng.randint(1, 2)):
             dflt = None if rng.random() < 0.4 else spec(rng)
-            decls.insert(rng.randint(0, len(decls)), {"key": k, "kind": "class", "default": dflt, "required": False})
+            decls.insert(rng.randint(0, len(decls)), {"key": k, "kind": "class", "default": dflt, "required": False, "alias": None})
         if rng.random() < 0.6:
-            decls.insert(rng.randint(0, len(decls)), {"key": "cs", "kind": "classlist", "default": [], "required": False})
+            decls.insert(rng.randint(0, len(decls)), {"key": "cs", "kind": "classlist", "default": [], "required": False, "alias": None})
     return decls
 
 
@@ -412,6 +426,18 @@ def gen_input(rng, decls, links, family, mode=None):
                 obj = nest([(d["key"], v)] + flat(obj))
             else:
                 argv.append(["opt", d["key"], v if d["kind"] != "str" else rng.choice(WORDS)])
+    # spelling / transport of the options: an argument declared with a second option string is given through it half of
+    # the time (whether it is a source or a link target); a whole class spec is handed over in its own config file half
+    # of the time (the parse keeps the file's __path__, save() writes the value back to a file of its own)
+    by_key = {d["key"]: d for d in decls}
+    for it in argv:
+        d = by_key.get(it[1]) if it[0] == "opt" else None
+        if d is None:
+            continue
+        if d.get("alias") and rng.random() < 0.5:
+            it.append("alt")
+        elif d["kind"] == "class" and isinstance(it[2], dict) and rng.random() < 0.7:
+            it.append("file")
     return {"mode": mode, "env": env, "argv": argv, "obj": obj}
 
 
@@ -545,8 +571,8 @@ G_TY = {"int": "TInt", "str": "TStr", "list": "TListInt", "any": "TAny"}
 
 def g_decl(d):
     kind = {"class": "KClass", "classlist": "KClassList"}.get(d["kind"]) or "(KPlain %s)" % G_TY[d["kind"]]
-    return "{| d_key := %s; d_kind := %s; d_default := %s; d_required := %s |}" % (
-        g_key(d["key"]), kind, g_val(None if d["required"] else d["default"]), g_bool(d["required"]))
+    return "{| d_key := %s; d_kind := %s; d_default := %s; d_required := %s; d_alias := %s |}" % (
+        g_key(d["key"]), kind, g_val(None if d["required"] else d["default"]), g_bool(d["required"]), g_bool(bool(d.get("alias"))))
 
 
 def g_classes():
@@ -570,6 +596,12 @@ IMPORTS = (IMPORTS + "\n" + "\n".join("Definition %s : str := %s." % (n, g_str(t
            + "\nDefinition c15classes : list cls := %s." % g_classes())
 
 
+def g_item(it):
+    if it[0] != "opt":
+        return "(Cfg %s)" % g_val(it[1])
+    return "(%s %s %s)" % ("OptAlias" if len(it) > 3 and it[3] == "alt" else "Opt", g_key(it[1]), g_val(it[2]))
+
+
 def term(case, obs):
     links = ["{| l_src := %s; l_tgt := %s; l_fn := %s |}" % (
         g_list([g_key(s) for s in l["src"]], "key"), g_key(l["tgt"]), g_opt(None if l["fn"] is None else g_nat(l["fn"])))
@@ -578,7 +610,7 @@ def term(case, obs):
     if case["mode"] == "object":
         inp = "(InObject %s %s)" % (env, g_val(case["obj"]))
     else:
-        items = ["(Opt %s %s)" % (g_key(it[1]), g_val(it[2])) if it[0] == "opt" else "(Cfg %s)" % g_val(it[1]) for it in case["argv"]]
+        items = [g_item(it) for it in case["argv"]]
         inp = "(InArgs %s %s)" % (env, g_list(items, "item"))
     rp = obs["reparse"]
     sub = case.get("sub")
@@ -588,17 +620,18 @@ def term(case, obs):
         slinks = ["{| l_src := %s; l_tgt := %s; l_fn := %s |}" % (
             g_list([g_key(k) for k in l["src"]], "key"), g_key(l["tgt"]), g_opt(None if l["fn"] is None else g_nat(l["fn"])))
             for l in sub["links"]]
-        sitems = ["(Opt %s %s)" % (g_key(it[1]), g_val(it[2])) if it[0] == "opt" else "(Cfg %s)" % g_val(it[1]) for it in sub["argv"]]
+        sitems = [g_item(it) for it in sub["argv"]]
         g_sub = ("(Some {| sb_name := %s; sb_decls := %s; sb_links := %s; sb_argv := %s; sb_build := %s; sb_required := %s |})" % (
             gs(sub["name"]), g_list([g_decl(d) for d in sub["decls"]], "decl"), g_list(slinks, "link"), g_list(sitems, "item"),
             g_list([g_N(b) for b in obs.get("sub_build", [])], "N"), g_list([g_key(k) for k in obs.get("sub_required", [])], "key")))
     return ("{| c_classes := %s; c_decls := %s; c_links := %s; c_input := %s; c_full := %s; c_aspect := %s; c_fixed := %s; c_sub := %s; "
-            "o_build := %s; o_required := %s; o_pre := %s; o_parse := %s; o_dump := %s; o_reparse := %s |}") % (
+            "o_build := %s; o_required := %s; o_pre := %s; o_parse := %s; o_dump := %s; o_save := %s; o_reparse := %s |}") % (
         _CLASSES_TERM, g_list([g_decl(d) for d in case["decls"]], "decl"), g_list(links, "link"), inp,
         g_bool(case["full"]), g_N(case["aspect"]), g_N(fixed_mask()), g_sub,
         g_list([g_N(b) for b in obs["build"]], "N"), g_list([g_key(k) for k in obs["required"]], "key"),
         g_opt(None if obs["pre"] is None else g_val(obs["pre"])), g_pres(obs["parse"]),
-        g_opt(None if obs["dump"] is None else g_val(obs["dump"])), g_opt(None if rp is None else g_pres(rp)))
+        g_opt(None if obs["dump"] is None else g_val(obs["dump"])),
+        g_opt(None if obs.get("save") is None else g_val(obs["save"])), g_opt(None if rp is None else g_pres(rp)))
 
 
 # ------------------------------------------------------------------------------------------------ evidence helpers
@@ -630,6 +663,11 @@ def unc(v):
     return v
 
 
+def show_decl(d):
+    alt = {"long": " (also --%s_alt)" % d["key"], "short": " (also -%s)" % d["key"].upper()}.get(d.get("alias"), "")
+    return "--%s %s%s%s" % (d["key"], d["kind"], " required" if d["required"] else " default=%r" % (d["default"],), alt)
+
+
 def describe(case, obs):
     fnames = {v: k for k, v in FN.items()}
     sub = case.get("sub")
@@ -637,19 +675,21 @@ def describe(case, obs):
     if sub:
         extra = {"subcommand (parse/dump/re-parse go through the TOP parser)": {
             "name": sub["name"], "registered": SUBCOMMANDS,
-            "declarations": ["--%s %s%s" % (d["key"], d["kind"], " required" if d["required"] else " default=%r" % (d["default"],)) for d in sub["decls"]],
+            "declarations": [show_decl(d) for d in sub["decls"]],
             "link_arguments_calls": ["%s --%s--> %s" % (",".join(l["src"]), fnames.get(l["fn"], "identity"), l["tgt"]) for l in sub["links"]],
             "argv after the subcommand name": sub["argv"],
             "observed link_calls": obs.get("sub_build"), "observed required_args": obs.get("sub_required")}}
     return {
         **extra,
-        "declarations": ["--%s %s%s" % (d["key"], d["kind"], " required" if d["required"] else " default=%r" % (d["default"],)) for d in case["decls"]],
+        "declarations": [show_decl(d) for d in case["decls"]],
         "link_arguments_calls": ["%s --%s--> %s" % (",".join(l["src"]), fnames.get(l["fn"], "identity"), l["tgt"]) for l in case["links"]],
         "input": {"mode": case["mode"], "env": case["env"], "argv": case["argv"], "object": case["obj"]},
         "aspect": "targets-in-list-items-vs-dump" if case["aspect"] else "all",
         "observed": {"link_calls(0=accepted,1=ValueError)": obs["build"], "required_args": obs["required"],
                      "cfg_before_links": unc(obs["pre"]), "parse": [obs["parse"][0], unc(obs["parse"][1])] if obs["parse"] else None,
                      "dump(skip_none=False)": unc(obs["dump"]),
+                     "save(multifile=True): main file with the nested files put back": unc(obs.get("save")),
+                     "files written by save": obs.get("save_files"), "save_error": obs.get("save_error"),
                      "reparse_of_dump": [obs["reparse"][0], unc(obs["reparse"][1])] if obs["reparse"] else None},
     }
 
@@ -705,6 +745,8 @@ META = {
         "C15_link_key_prefix_overlap_refuted, C15_list_item_target_in_dump_refuted and "
         "C15_skipped_link_target_stripped_refuted — kernel-evaluated inputs on which "
         "the unrepaired code violates the property; C15_fixed_dump_list_items_clean for the repaired strip. "
+        "C15_target_option_rejected_any_spelling — the option of a plain target is rejected through any of its option "
+        "strings (new input constructor OptAlias inside the induction over argv); "
         "C15_tree_link_invariant and C15_tree_targets_absent_from_dump — one level of subcommands, links in the top "
         "parser, the subcommand parser or both, parse and dump through the top parser. "
         "Examples show each hypothesis satisfiable by a non-trivial parser/input."),
